@@ -215,6 +215,12 @@ Section TestFns.
     end.
   Definition tf_shpow (k r : T) (p : nat) (x : T) : T := k * tf_ipow (x - r) p.
 
+  (** residuals of NESTED solves (re-entrancy stream of the check): at parent point p a level's
+      residual is  (f x - t*p)  and, when the level has an inner solve whose root at x is y,
+      (f x - t*p) + s*y *)
+  Definition tf_nest_inner (fx t p : T) : T := fx - t * p.
+  Definition tf_nest_outer (fx t p s y : T) : T := (fx - t * p) + s * y.
+
   (** k * x^m - c  (math.Pow; the storage-routing S = k Q^m shape) *)
   Definition tf_pow (k m c x : T) : T := k * apow x m - c.
 End TestFns.
@@ -232,4 +238,6 @@ Section Driver.
   Definition c18_tf_pwl : list (T * T) -> T -> T := tf_pwl.
   Definition c18_tf_pow : T -> T -> T -> T -> T := tf_pow.
   Definition c18_tf_shpow : T -> T -> nat -> T -> T := tf_shpow.
+  Definition c18_tf_nest_inner : T -> T -> T -> T := tf_nest_inner.
+  Definition c18_tf_nest_outer : T -> T -> T -> T -> T -> T := tf_nest_outer.
 End Driver.
